@@ -1,5 +1,5 @@
 use std::fmt;
-use std::io::ErrorKind;
+use std::io::{self, ErrorKind};
 use std::ptr;
 use std::sync::atomic::{AtomicBool, AtomicPtr, Ordering};
 use std::sync::Arc;
@@ -10,8 +10,8 @@ use crate::coroutine_impl::{co_cancel_data, run_coroutine, CoroutineImpl, EventS
 use crate::scheduler::get_scheduler;
 use crate::sync::atomic_dur::AtomicDuration;
 use crate::sync::AtomicOption;
-use crate::timeout_list::TimeoutHandle;
-use crate::yield_now::{get_co_para, yield_now, yield_with};
+use crate::timeout_list::{now, TimeoutHandle};
+use crate::yield_now::{get_co_para, set_co_para, yield_now, yield_with};
 
 #[derive(Debug, Copy, Clone, Eq, PartialEq)]
 pub enum ParkError {
@@ -201,10 +201,14 @@ impl EventSource for Park {
         let cancel = co_cancel_data(&co);
         // if we share the same park, the previous timer may wake up it by false
         // if we not deleted the timer in time
-        let timeout_handle = self
-            .timeout
-            .take()
-            .map(|dur| get_scheduler().add_timer(dur, self.wait_co.clone()));
+        // the timer is armed before the coroutine is published in `wait_co` below,
+        // remember when it is due so that we can tell if it fired in between
+        let mut deadline = None;
+        let timeout_handle = self.timeout.take().map(|dur| {
+            let ns = u64::try_from(dur.as_nanos()).unwrap_or(u64::MAX);
+            deadline = Some(now().saturating_add(ns));
+            get_scheduler().add_timer(dur, self.wait_co.clone())
+        });
         self.set_timeout_handle(timeout_handle);
 
         let _g = self.delay_drop();
@@ -217,6 +221,18 @@ impl EventSource for Park {
             // here may have recursive call for subscribe
             // normally the recursion depth is not too deep
             return self.fast_wake_up();
+        }
+
+        // if this thread was stalled for longer than the timeout between arming the
+        // timer and publishing the coroutine, the timer handler found `wait_co` empty
+        // and the timer is gone, nobody would ever deliver the timeout. The deadline
+        // has passed, so deliver it here. If the timer did not fire yet it would find
+        // `wait_co` empty, and it is removed by `remove_timeout_handle` as usual.
+        if deadline.is_some_and(|t| now() >= t) {
+            if let Some(mut co) = self.wait_co.take() {
+                set_co_para(&mut co, io::Error::new(ErrorKind::TimedOut, "timeout"));
+                return get_scheduler().schedule(co);
+            }
         }
 
         // register the cancel data
